@@ -23,7 +23,9 @@ TITLE = "GraphQL schema mirrors the data model and executes like (de)serialize"
 RULE = ("Hypothesis draws an operation set over the GraphQL-compatible sub-grammar: dataclasses (nested, with aliases, class aliasers, "
         "defaults, Optional / Undefined / None defaults, skip, flattened fields, enum-typed defaults), lists / sets, Optional, Enum "
         "(plain / int / str), Literal of strings, NewType scalars, constrained primitives; 1-3 query resolvers returning a generated "
-        "value of a generated type, one of them taking 1-2 arguments of generated (input) types with or without defaults; an aliaser in "
+        "value of a generated type, one of them taking 1-2 arguments of generated (input) types with or without defaults; on 35% of the output classes (also "
+        "classes flattened into others) a method resolver with an integer parameter (required or defaulted, given or omitted in the query) "
+        "whose result is part of the expected image; an aliaser in "
         "{camelCase default, identity} and argument data (valid, mutants, atoms).  Oracle: graphql.validate_schema == [], print_schema and "
         "the introspection query succeed; every generated dataclass reachable from an output / argument position has an object / input "
         "type whose field names are aliaser(class_aliaser(alias or name)) and whose nullability is the model's (non-null unless Optional, "
@@ -86,7 +88,19 @@ def strategy_(draw, tier):
             else:
                 row[a["n"]] = pick(draw, gen.ATOMS)
         data.append(row)
-    return {"prog": prog, "ops": ops, "aliaser": dyn, "data": data}
+    case = {"prog": prog, "ops": ops, "aliaser": dyn, "data": data}
+    # method resolvers with one integer parameter on classes reachable from the results (also on classes that are
+    # flattened into others): {"cls", "name", "default": int | None, "given": int | None (None = argument omitted)}
+    out_cls = sorted({i for o in ops for k_, i in tdcase.reachable_named(prog, o["ret"], "serialization") if k_ == "cls"})
+    mres = []
+    for i in out_cls:
+        if chance(draw, 0.35):
+            default = pick(draw, [None, 3, 0])
+            given = draw(st.integers(-2, 9)) if (default is None or chance(draw, 0.7)) else None
+            mres.append({"cls": i, "name": f"res_{i}x", "default": default, "given": given})
+    if mres:
+        case["mres"] = mres
+    return case
 
 
 def _strip_aggregates(prog):
@@ -112,6 +126,14 @@ def describe(case):
 
 def gql_name(p, f, cd, dyn) -> str:
     return M.ext_name(f, cd, dyn)
+
+
+_MRES = {}  # class index -> method resolvers of the case being evaluated
+
+
+def mres_value(r):
+    p = r["given"] if r["given"] is not None else r["default"]
+    return p * 2 + 1
 
 
 def gql_image(prog, t, v, dyn):
@@ -147,8 +169,13 @@ def gql_image(prog, t, v, dyn):
                 out.update(sub or {})
             else:
                 out[M.ext_name(f, cd, dyn)] = gql_image(prog, ft, val, dyn)
+        for r in _MRES.get(t["i"], []):
+            out[build.ALIASERS[dyn](r["name"])] = mres_value(r)
         return out
     raise M.Unspecified(k)
+
+
+_MARGS = {}  # GraphQL field name of a method resolver -> "(p: 5)" or ""
 
 
 def selection(tp, depth=0) -> str:
@@ -156,13 +183,16 @@ def selection(tp, depth=0) -> str:
     if isinstance(tp, (graphql.GraphQLObjectType, graphql.GraphQLInterfaceType)):
         if depth > 8:
             return " { __typename }"
-        return " { " + " ".join(name + selection(f.type, depth + 1) for name, f in tp.fields.items()) + " }"
+        return " { " + " ".join(name + _MARGS.get(name, "") + selection(f.type, depth + 1) for name, f in tp.fields.items()) + " }"
     return ""
 
 
 def nullable(f, cd) -> bool:
     """Output nullability of a field: Optional / Undefined in its type."""
-    alts = M.union_alts(f["t"]) if f["t"]["k"] in ("opt", "union") else [f["t"]]
+    t = f["t"]
+    while t["k"] == "ann":  # constraints declared around an Optional
+        t = t["of"]
+    alts = M.union_alts(t) if t["k"] in ("opt", "union") else [t]
     return any(a["k"] in ("none", "undefined") for a in alts)
 
 
@@ -186,6 +216,17 @@ def evaluate(case, ctx):
         extra += [f"def {o['name']}({', '.join(params)}) -> {build.texpr(o['ret'], prog)}:",
                   f"    CALLS.append(({o['name']!r}, dict({', '.join(a['n'] + '=' + a['n'] for a in o['args'])})))",
                   f"    return {build.vexpr(o['value'], prog)}", ""]
+    _MRES.clear()
+    _MARGS.clear()
+    al_ = build.ALIASERS[case["aliaser"]]
+    for r in case.get("mres", []):
+        cname = prog["classes"][r["cls"]]["name"]
+        dflt = "" if r["default"] is None else f" = {r['default']}"
+        extra += [f"def {r['name']}(self: {cname}, p: int{dflt}) -> int:", "    return p * 2 + 1", f"resolver(owner={cname})({r['name']})", ""]
+        _MRES.setdefault(r["cls"], []).append(r)
+        _MARGS[al_(r["name"])] = "" if r["given"] is None else f"(p: {r['given']})"
+    if case.get("mres"):
+        extra.insert(0, "from apischema.graphql import resolver")
     src = src + "\n".join(extra) + "\n"
     try:
         b = build.load(prog, source=src)
@@ -240,7 +281,9 @@ def _evaluate(case, ctx, b, src):
             continue
         exp_fields = {}
         _collect_fields(prog, cd, dyn, exp_fields)
-        if set(gtp.fields) != set(exp_fields):
+        res_fields = set()
+        _collect_resolvers(prog, cd, dyn, res_fields)
+        if set(gtp.fields) != set(exp_fields) | res_fields:
             viol("object_fields_differ", f"type {cd['name']}: fields {sorted(gtp.fields)} expected {sorted(exp_fields)}")
             continue
         for name, (f, owner) in exp_fields.items():
@@ -334,6 +377,15 @@ def _evaluate(case, ctx, b, src):
                     if ctx.evaluations % 5 == 0:
                         ctx.sample({"query": query, "variables": variables, "ok": got_ok, "types": short[-600:]})
     ctx.h("aliaser:" + dyn)
+
+
+def _collect_resolvers(prog, cd, dyn, out):
+    i = prog["classes"].index(cd)
+    for r in _MRES.get(i, []):
+        out.add(build.ALIASERS[dyn](r["name"]))
+    for f in M.ser_fields(cd):
+        if f.get("agg") == "flatten":
+            _collect_resolvers(prog, prog["classes"][M.strip(f["t"], prog)["i"]], dyn, out)
 
 
 def _collect_fields(prog, cd, dyn, out):
